@@ -103,6 +103,8 @@ pub proof fn lemma_chain_frame(kw: HeapW, kw2: HeapW, head: nat, s: Seq<nat>, b:
     assert forall|i: int, j: int| 0 <= i < j < s.len() implies s[i] != s[j] by {
         lemma_chain_member(kw, head, s, b, n, i);
     }
+    assert(chain_members_ok(kw2, s, b, n));
+    assert(chain_distinct(s));
     assert(chain_ok(kw2, head, s, b, n)) by { reveal(chain_ok); }
 }
 pub proof fn lemma_chain_push(kw: HeapW, head: nat, s: Seq<nat>, b: int, n: int, ko: nat)
@@ -131,6 +133,8 @@ pub proof fn lemma_chain_push(kw: HeapW, head: nat, s: Seq<nat>, b: int, n: int,
         if i > 0 { assert(s2[i] == s[i - 1]); } else { assert(s.contains(s[j - 1])); }
     }
     assert(first(s2) == ko);
+    assert(chain_members_ok(kw, s2, b, n));
+    assert(chain_distinct(s2));
     assert(chain_ok(kw, ko, s2, b, n)) by { reveal(chain_ok); }
 }
 /// member i leaves the chain: its predecessor (if any) was relinked past it, all other members are unchanged
@@ -170,6 +174,8 @@ pub proof fn lemma_chain_remove(kw: HeapW, kw2: HeapW, head: nat, s: Seq<nat>, b
     }
     if s2.len() > 0 { if i == 0 { assert(s2[0] == s[1]); } else { assert(s2[0] == s[0]); } }
     assert(first(s2) == head2);
+    assert(chain_members_ok(kw2, s2, b, n));
+    assert(chain_distinct(s2));
     assert(chain_ok(kw2, head2, s2, b, n)) by { reveal(chain_ok); }
 }
 
@@ -498,6 +504,8 @@ pub proof fn lemma_chain_same_links(kw: HeapW, kw2: HeapW, head: nat, s: Seq<nat
     assert forall|i: int, j: int| 0 <= i < j < s.len() implies s[i] != s[j] by {
         lemma_chain_member(kw, head, s, b, n, i);
     }
+    assert(chain_members_ok(kw2, s, b, n));
+    assert(chain_distinct(s));
     assert(chain_ok(kw2, head, s, b, n)) by { reveal(chain_ok); }
 }
 } // verus!
